@@ -564,8 +564,8 @@ def main(tier):
     t0 = time.time()
     rt, drv = load_progs()
     rep = common.Reporter(PID)
-    tmo = 240 if tier == "quick" else 1800
-    deadline = t0 + (900 if tier == "quick" else 3000)
+    tmo = 900 if tier == "quick" else 2400
+    deadline = t0 + (2400 if tier == "quick" else 5400)
     results = []
     cfgs = CONFIGS[tier]
     for r in common.fork_map(_cfg_worker, [(rt, drv, c, tmo, deadline) for c in cfgs], min(len(cfgs), 4)):
